@@ -291,6 +291,26 @@ func init() {
 	})
 
 	reg(&PropSpec{
+		ID: "C17",
+		Harnesses: func(tier string) []HarnessSpec {
+			return []HarnessSpec{{Name: "two-nodes-contract-transport", Pkg: "remote", Func: "ZZ_C17", Preempt: 0,
+				Params:    pm("K", tierSel(tier, 2, 3), "ZZMAXALLOC", 1100000, "ZZDETSCHED", 1),
+				Witnesses: []string{"delivered", "dead-lettered", "burst", "peer-down", "peer-up", "reply", "unreachable-and-connected-in-one-history"}, Deadline: 90 * time.Minute}}
+		},
+		Bounds: func(tier string) string {
+			return fmt.Sprintf("two nodes A and B; quiescent histories of %d operations (send A->B to one of 2 targets with or without sender; burst of two sends; B's reader consumes what has arrived; B comes up / becomes reachable; B becomes unreachable and its connections break; B sends to an actor on A), B initially up or not started; then Start twice, Stop().Wait(), Stop again, Stop before Start; one schedule per history (deterministic scheduler), payload = remote.TestMessage with one data byte", tierSel(tier, 2, 3))
+		},
+		Outside: []string{
+			"REDUCED SCOPE - real TCP, TLS, the DRPC library (framing, its goroutines, flow control) and the OS are replaced by a contract transport: a dial succeeds exactly when the peer serves and is reachable, frames on an established connection arrive once and in order, a broken connection loses what was not yet read. That TCP+DRPC honour this contract is assumed, not checked",
+			"interleavings: every operation is followed by quiescence and the scheduler is deterministic, so concurrent senders and timing-dependent batch formation beyond the two-message burst are outside",
+			"wall-clock behaviour of the 3 dial retries and the idle deadline (time.Sleep is a model)",
+			"more than two nodes / peer addresses, longer histories",
+			"protobuf reflection: ProtoSerializer's three methods are modelled by the message's own generated VT codec and a registry of the module's message types",
+		},
+		Assumptions: append([]string{"contract transport models: /verif/rt/zzshim/{net,tls,drpcconn,drpcmux,drpcserver}; protobuf runtime model: engine/protomodel.go", "real code executed: Remote.Start/Stop/Send, streamRouter, streamWriter (Start/init/Invoke/Shutdown, real Inbox and goroutines), streamReader.Receive, generated drpc client/stream wrappers, Envelope/Message/PID/TestMessage VT codec, Engine.send/SendLocal/Spawn/Registry"}, commonAssumptions...),
+	})
+
+	reg(&PropSpec{
 		ID: "C19",
 		Harnesses: func(tier string) []HarnessSpec {
 			return []HarnessSpec{{Name: "multi-agent-history", Pkg: "cluster", Func: "ZZ_C19", Preempt: 0, Params: pm("N", tierSel(tier, 2, 3), "K", 3),
